@@ -288,17 +288,22 @@ fn fault(kind: &str, real: &[u8]) -> (Vec<u8>, After) {
             let mut v = vec![];
             let mut depth = 0i64;
             let mut in_bar = false;
+            let mut in_str = false;
             for &c in real {
-                if c == b'|' {
+                if c == b'"' && !in_bar {
+                    in_str = !in_str;
+                }
+                if c == b'|' && !in_str {
                     in_bar = !in_bar;
                 }
-                if !in_bar && c == b'(' {
+                if !in_bar && !in_str && c == b'(' {
                     depth += 1;
                 }
-                if !in_bar && c == b')' {
+                if !in_bar && !in_str && c == b')' {
                     depth -= 1;
                 }
-                if c == b' ' && depth > 0 && !in_bar {
+                // never inside a string literal or a quoted symbol: their contents must stay what they are
+                if c == b' ' && depth > 0 && !in_bar && !in_str {
                     v.push(b'\n');
                 } else {
                     v.push(c);
@@ -306,6 +311,8 @@ fn fault(kind: &str, real: &[u8]) -> (Vec<u8>, After) {
             }
             (v, After::Continue)
         }
+        // an error reply whose MESSAGE spans two lines (cvc5 prints such messages)
+        "errormultiline" => (b"(error \"first line of the message\nsecond line\")\n".to_vec(), After::Continue),
         // the correct reply surrounded by blanks
         "pad" => {
             let mut v = b"  \t".to_vec();
